@@ -2,6 +2,7 @@
 from __future__ import annotations
 
 import io
+import sys
 import random
 
 from harness import absyn
@@ -12,10 +13,20 @@ NO_DUMP = {"status": "none", "b": [], "exc": ""}
 NO_RE = {"status": "none", "v": NONE_V, "pos": 0}
 
 
+def spelled(mode, endian=None):
+    """The byte order as it is handed to the library: mode["spelling"] says how the order mode["endian"] is written ("<" or, on
+    this little-endian host, "@" / "="; ">" or "!").  The specification only knows the MEANING ("<" / ">")."""
+    e = endian or mode["endian"]
+    sp = mode.get("spelling")
+    if sp is None:
+        return e
+    return {"<": sp if sp in ("@", "=") else "<", ">": "!" if sp in ("!", "@", "=") else ">"}[e]
+
+
 def new_cs(mode):
     from dissect.cstruct import cstruct
 
-    return cstruct(endian=mode["endian"], pointer=absyn.PTRTYPES[mode["ptr"]])
+    return cstruct(endian=spelled(mode), pointer=absyn.PTRTYPES[mode["ptr"]])
 
 
 class Defs(str):
@@ -38,7 +49,7 @@ def load(defs, mode, compiled):
     else:
         cs.load(defs, compiled=compiled, align=mode["align"])
     if "loaded_as" in mode:
-        cs.endian = mode["endian"]
+        cs.endian = spelled(mode)
     return cs
 
 
@@ -178,7 +189,11 @@ def gen_input(rnd, start, maxlen=96):
 
 def gen_mode(rnd):
     # pointer widths: the struct-packed ones, and now and then an integer type that is not (uint24 / uint48 / uint128)
-    return {"endian": rnd.choice("<>"), "align": rnd.random() < 0.5, "ptr": rnd.choice([1, 2, 4, 8, 1, 2, 4, 8, 3, 6, 16])}
+    mode = {"endian": rnd.choice("<>"), "align": rnd.random() < 0.5, "ptr": rnd.choice([1, 2, 4, 8, 1, 2, 4, 8, 3, 6, 16])}
+    if rnd.random() < 0.25 and sys.byteorder == "little":
+        # the other spellings of a byte order: native ("@", "=") for little endian on this host, network ("!") for big endian
+        mode["spelling"] = rnd.choice("@=") if mode["endian"] == "<" else "!"
+    return mode
 
 
 def gen_scenario(rnd, cfg=None, mode=None, top_union=0.12):
